@@ -45,7 +45,9 @@ def run_dd(ctx, props, cases, rule, allowed_axioms=(), drv_args=(), env=None, as
     if os.path.isdir(corpus_dir):
         for fn in sorted(os.listdir(corpus_dir)):
             if fn.endswith(".case"):
-                corpus += [("corpus-" + h, ops) for h, ops in vf.parse_cases(open(os.path.join(corpus_dir, fn)).read())]
+                # (a corpus directory may also hold cases of the property's other harnesses)
+                corpus += [("corpus-" + h, ops) for h, ops in vf.parse_cases(open(os.path.join(corpus_dir, fn)).read())
+                           if " kind=" in h]
     cases = corpus + list(cases)
     ok, bad, digests = vf.lockstep_sharded(ctx, binp, drv, cases, nshards=nshards, env=env, drv_args=args)
     ctx.digests = digests
